@@ -63,6 +63,9 @@ def run(ctx):
     from . import c15
     c15.cli_arm_dep(ctx, "C07", ("Ctr",))
     rule_threads_default(ctx, "C07.L", "counter::CountComputer")
+    # "the counts file contains exactly ..": it is (re)created by every merge, also when nothing was counted
+    if fm is not None:
+        rule_output_always_created(dep(ctx, "C07", "C17"), "C17.W", fm, "counter::merge")
 
 
 def worker_closure(fv):
